@@ -9,7 +9,7 @@ RULE = ("seeded scenarios of 1-3 producers (unique values), 1-4 consumers (singl
         "(participant, kind in cancel/interrupt/close, kernel event). Non-trivial = some "
         "receiver had to block or a fault was observed by its victim; distinct = distinct "
         "sequence of (actor, queue event, value) plus fault position.")
-BUDGET = {"quick": {"cases": 400, "wall_s": 100, "chunk": 2, "per_group": 25},
+BUDGET = {"quick": {"cases": 400, "wall_s": 240, "chunk": 2, "per_group": 25},
           "thorough": {"cases": 4000, "wall_s": 1500, "chunk": 5, "per_group": 400}}
 ASSUMPTIONS = ["the value of a put that was itself torn down before returning may be delivered "
                "or not (0 or 1 times), never twice"]
